@@ -58,7 +58,12 @@ def cases(tier, seed, ctx=None):
         tok = base64.b64encode(u + b":" + p)
         hv = b"Basic " + tok
         tag = "valid-form"
-        if kind == 1: hv = rng.choice([b"basic ", b"BASIC ", b"bAsIc "]) + tok; tag = "scheme-case"
+        if kind == 1:
+            hv = rng.choice([b"basic ", b"BASIC ", b"bAsIc "]) + tok; tag = "scheme-case"
+            if rng.chance(1, 3):
+                # letters that only Unicode case folding / Latin-1 lowering would take for those of "Basic": other schemes
+                hv = rng.choice([b"Ba\xc5\xbfic ", b"BA\xc5\xbfIC ", b"Ba\xdfic ", b"Bas\xc4\xb1c ", b"BAS\xc4\xb0C ", b"\xe2\x84\xacasic ", b"Bas\xc3\xacc "]) + tok
+                tag = "scheme-lookalike"
         elif kind == 2: hv = b"Basic" + tok; tag = "no-space"
         elif kind == 3: hv = b"Basic  " + tok; tag = "two-spaces"
         elif kind == 4: hv = b"Basic\t" + tok; tag = "tab"
